@@ -207,66 +207,116 @@ def run_replay_file(path, strict=True):
 
 
 FUZZ = {
-    # property -> (cargo-fuzz target, max_len, runs in the thorough tier)
-    "C01": ("fz_c01", 256, 4_000_000),
-    "C04": ("fz_c04", 64, 8_000_000),
-    "C10": ("fz_c10", 512, 4_000_000),
-    "C11": ("fz_c10", 512, 4_000_000),
+    # property -> campaigns (cargo-fuzz target, cargo features of the fuzz crate, max_len, runs per process, processes)
+    "C01": [("fz_c01", "", 256, 1_500_000, 6), ("fz_c01", "compact", 256, 1_500_000, 6)],
+    "C04": [("fz_c04", "", 64, 3_000_000, 8), ("fz_c04", "radix", 64, 1_500_000, 8)],
+    "C10": [("fz_c10", "", 512, 1_500_000, 6), ("fz_c10", "radix,format", 512, 250_000, 10)],
+    "C11": [("fz_c10", "", 512, 1_500_000, 6), ("fz_c10", "radix,format", 512, 250_000, 10)],
 }
 
 
-def fuzz_phase(prop, seed):
-    """thorough tier only: a libFuzzer (+ASan) campaign whose target carries the same oracle.
-    Returns (violations, stats, infra)."""
-    target, max_len, runs = FUZZ[prop]
-    fuzz_dir = os.path.join(VERIF, "fuzz")
-    corpus = os.path.join(BUILD, "fuzzcorpus", f"{target}-{os.getpid()}")
-    os.makedirs(corpus, exist_ok=True)
-    seeds = os.path.join(CORPUS, "fuzz", target)
-    if os.path.isdir(seeds):
-        for n in os.listdir(seeds):
-            shutil.copy(os.path.join(seeds, n), corpus)
-    art = os.path.join(BUILD, "fuzzartifacts", f"{target}-{os.getpid()}") + "/"
-    os.makedirs(art, exist_ok=True)
-    env = dict(ENV)
-    cmd = ["cargo", "+nightly", "fuzz", "run", "--fuzz-dir", fuzz_dir, target, corpus, "--", f"-runs={runs}", f"-max_len={max_len}", "-len_control=0",
-           f"-seed={seed + 1}", f"-artifact_prefix={art}", "-print_final_stats=1", "-workers=0", "-jobs=0"]
+def fuzz_target_dir(features):
+    return os.path.join(BUILD, "t", "fuzz_" + (features.replace(",", "_") or "default"))
+
+
+def fuzz_build(target, features):
+    cmd = ["cargo", "+nightly", "fuzz", "build", "--fuzz-dir", os.path.join(VERIF, "fuzz"), "--target-dir", fuzz_target_dir(features)]
+    if features:
+        cmd += ["--features", features]
+    cmd.append(target)
     t0 = time.time()
-    try:
-        r = subprocess.run(cmd, cwd=HARNESS, env=env, stdout=subprocess.PIPE, stderr=subprocess.STDOUT, text=True, timeout=4 * 3600)
-    except subprocess.TimeoutExpired:
-        return [], {"target": target, "timed_out": True}, True
-    out = r.stdout
-    stats = {"target": target, "requested_runs": runs, "wall_s": round(time.time() - t0, 1)}
-    for line in out.splitlines():
-        if line.startswith("stat::number_of_executed_units:"):
-            stats["executed_units"] = int(line.split(":")[-1])
-        if " cov: " in line and "ft:" in line:
+    r = subprocess.run(cmd, cwd=HARNESS, env=ENV, stdout=subprocess.PIPE, stderr=subprocess.STDOUT, text=True)
+    if r.returncode != 0:
+        log(f"fuzz build failed ({target} [{features}]):\n{r.stdout[-3000:]}")
+        return None
+    log(f"built fuzz target {target} [{features or 'default'}] in {time.time() - t0:.0f}s")
+    return os.path.join(fuzz_target_dir(features), "x86_64-unknown-linux-gnu", "release", target)
+
+
+def fuzz_phase(prop, seed):
+    """thorough tier only: libFuzzer (+ASan) campaigns whose targets carry the same oracles as the proptest
+    checks; several independent processes per campaign, each from an empty corpus (plus committed seeds)
+    and its own -seed. Returns (violations, stats list, infra)."""
+    viols, stats_all, infra = [], [], False
+    scale = float(os.environ.get("VERIF_SCALE", "1"))
+    for target, features, max_len, runs, procs in FUZZ[prop]:
+        exe = fuzz_build(target, features)
+        if exe is None:
+            infra = True
+            continue
+        runs = max(1000, int(runs * scale))
+        work = os.path.join(BUILD, "fuzzwork", f"{target}-{features.replace(',', '_') or 'default'}-{os.getpid()}")
+        shutil.rmtree(work, ignore_errors=True)
+        ps = []
+        t0 = time.time()
+        for i in range(procs):
+            corpus = os.path.join(work, f"corpus{i}")
+            art = os.path.join(work, f"art{i}") + "/"
+            os.makedirs(corpus)
+            os.makedirs(art)
+            seeds = os.path.join(CORPUS, "fuzz", target)
+            if os.path.isdir(seeds):
+                for n in os.listdir(seeds):
+                    shutil.copy(os.path.join(seeds, n), corpus)
+            env = dict(ENV)
+            env["ASAN_OPTIONS"] = "detect_odr_violation=0:detect_leaks=0"
+            cmd = [exe, corpus, f"-runs={runs}", f"-max_len={max_len}", "-len_control=0", f"-seed={(seed * 1000 + i * 7 + 1) % (2**31)}", f"-artifact_prefix={art}",
+                   "-print_final_stats=1", "-detect_leaks=0", "-rss_limit_mb=6144", "-timeout=120"]
+            ps.append((i, art, subprocess.Popen(cmd, cwd=work, env=env, stdout=subprocess.PIPE, stderr=subprocess.STDOUT, text=True)))
+        st = {"target": target, "features": features or "default", "processes": procs, "requested_runs_per_process": runs, "executed_units": 0, "max_cov": 0}
+        for i, art, p in ps:
             try:
-                stats["cov"] = int(line.split(" cov: ")[1].split()[0])
-            except Exception:
-                pass
-    viols = []
-    arts = [os.path.join(art, n) for n in sorted(os.listdir(art))]
-    if r.returncode != 0 and arts:
-        msg = next((l for l in out.splitlines() if "VIOLATION property=" in l), "fuzz target crashed (see artifact)")
-        data = open(arts[0], "rb").read()
-        viols.append({"subcheck": f"fuzz:{target}", "message": msg[:1500], "case": {"kind": "fuzz-artifact", "target": target, "input_hex": data.hex()}})
-    elif r.returncode != 0:
-        log(f"fuzz run failed without artifact:\n{out[-2000:]}")
-        return [], stats, True
-    shutil.rmtree(corpus, ignore_errors=True)
-    shutil.rmtree(art, ignore_errors=True)
-    return viols, stats, False
+                out, _ = p.communicate(timeout=6 * 3600)
+            except subprocess.TimeoutExpired:
+                p.kill()
+                out, _ = p.communicate()
+                st["timed_out"] = True
+                infra = True
+            for line in out.splitlines():
+                if line.startswith("stat::number_of_executed_units:"):
+                    st["executed_units"] += int(line.split(":")[-1])
+                if " cov: " in line and "ft:" in line:
+                    try:
+                        st["max_cov"] = max(st["max_cov"], int(line.split(" cov: ")[1].split()[0]))
+                    except Exception:
+                        pass
+            arts = [os.path.join(art, n) for n in sorted(os.listdir(art))]
+            if p.returncode != 0 and arts:
+                crash = [a for a in arts if os.path.basename(a).startswith("crash-")]
+                if not crash:
+                    # oom-/timeout-/slow-unit artifacts are resource reports, not violations
+                    log(f"fuzz process {i} of {target} ended with {os.path.basename(arts[0])}: inconclusive")
+                    infra = True
+                    continue
+                msg = next((l for l in out.splitlines() if "VIOLATION property=" in l), None)
+                if msg is None:
+                    msg = next((l for l in out.splitlines() if "ERROR: AddressSanitizer" in l or "panicked at" in l), "fuzz target crashed (see artifact)")
+                mprop = prop
+                if "VIOLATION property=" in msg:
+                    mprop = msg.split("VIOLATION property=")[1].split()[0]
+                data = open(crash[0], "rb").read()
+                viols.append({"subcheck": f"fuzz:{target}[{features or 'default'}]", "message": msg[:1500], "property_hit": mprop,
+                              "case": {"kind": "fuzz-artifact", "target": target, "features": features, "input_hex": data.hex()}})
+            elif p.returncode != 0:
+                log(f"fuzz process {i} of {target} failed without artifact:\n{out[-1500:]}")
+                infra = True
+        st["wall_s"] = round(time.time() - t0, 1)
+        stats_all.append(st)
+        shutil.rmtree(work, ignore_errors=True)
+    return viols, stats_all, infra
 
 
 def run_replay_fuzz(path, v):
     case = v.get("case", {})
     target = case.get("target")
+    exe = fuzz_build(target, case.get("features", ""))
+    if exe is None:
+        return "infra", "fuzz build failed"
     tmp = os.path.join(BUILD, f"fuzz-replay-{os.getpid()}.bin")
-    os.makedirs(BUILD, exist_ok=True)
     open(tmp, "wb").write(bytes.fromhex(case.get("input_hex", "")))
-    r = subprocess.run(["cargo", "+nightly", "fuzz", "run", "--fuzz-dir", os.path.join(VERIF, "fuzz"), target, tmp, "--", "-runs=1"], cwd=HARNESS, env=ENV, stdout=subprocess.PIPE, stderr=subprocess.STDOUT, text=True, timeout=3600)
+    env = dict(ENV)
+    env["ASAN_OPTIONS"] = "detect_odr_violation=0:detect_leaks=0"
+    r = subprocess.run([exe, tmp, "-runs=1", "-detect_leaks=0"], cwd=BUILD, env=env, stdout=subprocess.PIPE, stderr=subprocess.STDOUT, text=True, timeout=3600)
     os.unlink(tmp)
     if r.returncode == 0:
         return "pass", f"REPLAY-PASS property={v.get('property')} file={path}\n"
@@ -388,8 +438,12 @@ def check(prop, tier):
         fv, fuzz_stats, finfra = fuzz_phase(prop, seed)
         infra = infra or finfra
         for v in fv:
+            if v.get("property_hit", prop) != prop:
+                # fz_c10 carries the C10 and the C11 oracle: the other property's check reports its own
+                log(f"  fuzz campaign of {prop} stopped on a violation of {v['property_hit']} (reported by that property's check): {v['message'][:300]}")
+                continue
             violations.append(("default", "release", v))
-        evaluations += fuzz_stats.get("executed_units", 0)
+        evaluations += sum(st.get("executed_units", 0) for st in fuzz_stats)
     status = 0
     lines = []
     for cfg, profile, v in violations:
